@@ -133,6 +133,10 @@ def run_shard(ctx):
     import hashlib
 
     pydsdl = import_pydsdl()
+    from pv.mon.conserve import Conserve
+    from pv.mon.const import ConstMonitor
+
+    always_on = [Conserve(pydsdl).install(), ConstMonitor(pydsdl).install()]  # silent side monitors (C03 / C12 mechanisms)
     rng = ctx.rng
     n = ctx.share(ctx.params["n"])
     deps, seed_text = make_seed(rng)
@@ -174,6 +178,8 @@ def run_shard(ctx):
             continue
         i += 1
         api = "read_files" if rng.random() < 0.2 else "read_namespace"
+        for m in always_on:
+            m.bind(ctx, {"text": text, "kind": kind, "deps": deps})
         try:
             with ctx.watchdog(25):
                 out = run_text(ctx, pydsdl, deps, text, kind, ctx.tmp, api)
